@@ -235,6 +235,40 @@ def registry_route(chk, P, normal, ref_forms, extra_forms):
         ok, why = ep.equal(v, want)
         chk.ob("C06.O5", "registry entry 'as.%s' wraps potentialfunctions.%s" % (name, name), ok, site=rsite, found=why or v, expect=want,
                key="C06.O5|registry|%s" % name)
+    # a form object is used for many entries of one model: the second use, with one parameter changed, gives what a fresh
+    # registry gives for those parameters (every parameter position in turn)
+    for lab in keys:
+        if not lab.startswith("as."):
+            continue
+        HJ, hreg, _ = F.standard_registry(P)
+        ent = HJ.getitem(hreg, Const(lab))
+        sig = HJ.getattr(ent, "signature")
+        names = [x.v for x in HJ.as_iterable(HJ.getattr(sig, "parameter_names")).items][1:]
+        if HJ.truth(HJ.getattr(sig, "is_varargs")) is True:
+            names = ["c0", "c1", "c2"]
+        if not names:
+            continue
+        base = [Num(ep.sym(n)) for n in names]
+        try:
+            HJ.call(ent, list(base), {})                    # first use
+        except RaiseSignal:
+            continue
+        bad = []
+        for i, n in enumerate(names):
+            args2 = list(base)
+            args2[i] = Num(ep.sym(n + "_2"))
+            HJ.assumption_fns.append(F.distinct((n, n + "_2")))
+            try:
+                again = F.value_key(HJ, HJ.call(ent, list(args2), {}))
+            finally:
+                HJ.assumption_fns.pop()
+            FJ, freg, _ = F.standard_registry(P)
+            fresh = F.value_key(FJ, FJ.call(FJ.getitem(freg, Const(lab)), list(args2), {}))
+            if again != fresh:
+                bad.append(n)
+        chk.ob("C06.O5", "'%s' used a second time in one model with a parameter changed gives the function of the new parameters" % lab,
+               not bad, site=site, found=("still the function of the first use after changing %s" % bad) if bad else None,
+               expect="as a fresh registry", key="C06.O5|second-use|%s" % lab)
     # arity checks on one representative (buck: 3 parameters)
     inst, params, want = normal["buck"]
     d = I.call(mk, [Const("as.buck"), inst], {})
